@@ -3,7 +3,8 @@ from common import COMMON_TB
 CONFIG = {
     "lean_modules": ["SA.Props.C12"],
     "level_text": "Proved in Lean on panic-explicit models (every index, slice and nil-func call of the Go decoders is an operation that can fail): "
-                  "C12_server_no_panic(_reachable) — for every one-question message (any name bytes, type, source address), every codec behaviour and "
+                  "C12_server_no_panic(_reachable) — for every one-question message (any name bytes, type, source address), every codec whose Decode is total "
+                  "(explicit hypothesis Codec.Total; C12_decoder_panic_propagates_server/_client: a decoder that panics kills handler and client decoder) and "
                   "every state reachable from a fresh listener the server handler returns an answer or an error, never panics; C12_client_no_panic — "
                   "same for the client decoder over every answer section (no records, records shorter than their order tag, mixed types, foreign names); "
                   "C12_bounded_work_* — every stored downstream fragment size is in 1..65535 in every reachable state, the Write chunking loop then "
@@ -15,13 +16,19 @@ CONFIG = {
     "level_note": "Partial: 'bounded work' is proved as bounds on the client-controlled quantities (fragment sizes, loop iteration counts of the model, "
                   "which is structurally recursive on the message) plus a measured allocation monitor (<= 24 MiB per message, 3 GiB address-space limit in a "
                   "child process for sizes >= 2^31); no cost semantics of the Go runtime. miekg/dns' own parser, messages with 0 or >1 questions "
-                  "(ComposeRequest indexes Question[0] / Name[0:2]) and the codecs' internals (C08) are outside; the codecs are assumed not to panic. "
+                  "(ComposeRequest indexes Question[0] / Name[0:2]) and the codecs' internals (C08) are outside; that the codecs do not panic is the hypothesis "
+                  "Codec.Total, checked on the real codecs for the empty input, every single octet and every pair of octets (Decode and Encode, all 8 registered "
+                  "codecs) and on every generated input (oracle entries record PANIC), not proved for longer inputs. "
                   "sort.Slice on the answer records is modelled as a stable insertion sort (exact for <= 12 records; for more, only the order of equal-"
                   "priority records may differ, the no-panic theorem does not depend on it). Trusted: Lean kernel, the hand-written models, the sampled "
                   "correspondence, the extractor.",
     "technique": "Lean 4 proof (panic-explicit Result-monad model, invariants) + regenerated panic-site inventory + model/code differential correspondence under recover",
     "components": [{"name": "dnsfuzz", "timeout": {"quick": 300, "thorough": 1500}}],
-    "rule": "dnsfuzz srv: established session(s) with pending downstream data, one stray/fuzzed message, then a packet of the owner that must still "
+    "rule": "dnsfuzz dec/enc: real Decode/Encode of each of the 8 registered codecs on the empty input, all 256 single octets and all 65536 octet pairs "
+            "(monitor: PANIC in Decode/Encode of codec <c> on <hex>). dnsfuzz srv (byte coverage): for every negotiable upstream codec x every octet 0x00-0xFF "
+            "(as miekg presents it; thorough also raw) a packet query whose body is the octet alone / a valid body with one character replaced / a valid "
+            "body with the octet appended; dnsfuzz cli (byte coverage): for every downstream codec x every octet, each response letter followed by the octet, "
+            "and valid encoded responses with one byte replaced in NULL and TXT records. dnsfuzz srv: established session(s) with pending downstream data, one stray/fuzzed message, then a packet of the owner that must still "
             "be served. Names: the design-phase spike names (mail.<d>, bare domain, v., ca., yabc., l/e/m letters, root, dangling backslash ...) x 3 domains "
             "x owner/stranger; every query type 0..260,65000,65440,65535 (thorough; 19 types quick) against a stray name and a valid packet; every "
             "truncation of every valid request type, 16 odd user-id spellings (zz, ZZ, +1, -1, _1, raw bytes, escapes), upper-case command letters, "
@@ -36,5 +43,5 @@ CONFIG = {
                                  "codecs are a parameter of the models (op line carries the real Decode results)",
                                  "go/extract/x_c12.go: command table, codec codes, limits, panic-site inventory"],
     "assumptions": ["messages carry exactly one question (miekg/dns delivers what was on the wire; 0 or several questions are outside the property's quantifier)",
-                    "enc.Encoder.Decode/Encode of every codec return normally"],
+                    "enc.Encoder.Decode/Encode of every codec return normally (Codec.Total: hypothesis of the theorems; exhaustively checked on inputs of length <= 2 and on every generated input)"],
 }
